@@ -266,7 +266,7 @@ def harnesses(tier):
     kinds = ['circle', 'ellipse', 'rectangle', 'polygon', 'polygon-origin', 'regpoly', 'point', 'text', 'line', 'annulus-circle',
              'annulus-ellipse', 'annulus-rectangle']
     for k in kinds:
-        for au in (['deg'] if q else ['deg', 'rad', 'arcmin']):
+        for au in ((['deg'] + (['rad'] if k in ('annulus-ellipse', 'annulus-rectangle', 'rectangle') else [])) if q else ['deg', 'rad', 'arcmin']):
             hs.append((f'rotate/{k}/{au}', P(h_rotate, k, au, k not in SLOW_DIRECT or (not q and k == 'polygon'))))
     hs.append(('rotate/compound', h_rotate_compound))
     hs.append(('rotate/frame-lemma', h_frame_lemma))
@@ -290,7 +290,7 @@ META = {
     'functions_encoded': ['regions.core.pixcoord.PixCoord.rotate', 'rotate of Circle/Ellipse/Rectangle/Polygon/RegularPolygon/'
                           'Point/Text/Line/annulus/compound pixel regions', 'Region.copy', 'area of every class',
                           'contains of the rotated region', 'bounding_box / to_mask of integer translates (with the .pyx kernels)'],
-    'bounds': {'quick': {'rotation': 'arbitrary pivot and angle (unit-circle atom, deg)', 'polygon': 'triangle',
+    'bounds': {'quick': {'rotation': 'arbitrary pivot and angle (unit-circle atom; rotation angle in deg, for rectangles and the two asymmetric annuli also in rad while the region angle is in deg)', 'polygon': 'triangle',
                          'regular polygon': 'n = 4', 'translation': 'unbounded integer (K, L); masks: circle/rectangle centre mode, box <= 3x3'},
                'thorough': {'rotation angle units': ['deg', 'rad', 'arcmin'],
                             'translation masks': 'circle/rectangle/ellipse, centre and subpixels=2'}},
